@@ -194,6 +194,8 @@ pub struct Stats {
     pub seams: u64,
     pub panics: u64,
     pub nonfinite: u64,
+    pub diag: Option<String>,
+    pub diags: u64,
 }
 
 fn all_bits(t: &TaffyTree<Ctx>, ids: &[NodeId], rounded: bool) -> Vec<Vec<u64>> {
@@ -283,6 +285,18 @@ pub fn oracle_case(seed: u64, idx: u64, st: &mut Stats, verbose: bool) -> Result
             }
             if dh > 1.0 + tol {
                 return Err(format!("node {i}: rounded height {} vs unrounded {} differ by more than one pixel", r[i].size.height, u[i].size.height));
+            }
+        }
+        // diagnostic only (stronger than the property, never a FAIL): for any ancestors, a size is the difference of the
+        // rounded absolute edges (theorem C13_size_from_absolute_edges)
+        for i in 0..n {
+            let (l, rt) = (ax[i], ax[i] + u[i].size.width as f64);
+            let (tp, bt) = (ay[i], ay[i] + u[i].size.height as f64);
+            if !near_half(l) && !near_half(rt) && r[i].size.width as f64 != rt.round() - l.round() && st.diag.is_none() {
+                st.diag = Some(format!("node {i} (depth {}): rounded width {} != round({rt}) - round({l})", depth[i], r[i].size.width));
+            }
+            if !near_half(tp) && !near_half(bt) && r[i].size.height as f64 != bt.round() - tp.round() && st.diag.is_none() {
+                st.diag = Some(format!("node {i} (depth {}): rounded height {} != round({bt}) - round({tp})", depth[i], r[i].size.height));
             }
         }
         // (4) edges: under integral ancestors and off half pixels, rounded absolute edges = round(unrounded absolute edges)
@@ -405,6 +419,12 @@ pub fn oracle_case(seed: u64, idx: u64, st: &mut Stats, verbose: bool) -> Result
             st.deep_edge_nodes += s.deep_edge_nodes;
             st.seams += s.seams;
             st.nonfinite += s.nonfinite;
+            if let Some(d) = s.diag {
+                st.diags += 1;
+                if st.diags <= 3 {
+                    println!("DIAG {idx} {d}");
+                }
+            }
             Ok(())
         }
     }
@@ -514,8 +534,8 @@ pub fn main(args: &[String]) {
                 }
             }
             println!(
-                "ORACLE trees={} nodes={} edge_nodes={} deep_edge_nodes={} seams={} panics={} nonfinite={} fails={}",
-                st.trees, st.nodes, st.edge_nodes, st.deep_edge_nodes, st.seams, st.panics, st.nonfinite, fails
+                "ORACLE trees={} nodes={} edge_nodes={} deep_edge_nodes={} seams={} panics={} nonfinite={} diagnostics={} fails={}",
+                st.trees, st.nodes, st.edge_nodes, st.deep_edge_nodes, st.seams, st.panics, st.nonfinite, st.diags, fails
             );
         }
         "oracle1" => {
